@@ -17,6 +17,7 @@ for spec in sys.argv[2:]:
     r = recs[mid]
     d = f"/tmp/vmutr-{os.getpid()}"
     shutil.rmtree(d, ignore_errors=True)
+    shutil.rmtree(f"/verif/.build/scratch-rerun{os.getpid()}", ignore_errors=True)
     subprocess.run(f"rsync -a --exclude .git /repo/ {d}/", shell=True, check=True)
     p = os.path.join(d, r['file'])
     lines = open(p).read().split("\n")
@@ -26,7 +27,7 @@ for spec in sys.argv[2:]:
     open(p, 'w').write("\n".join(lines))
     res = {"id": mid, "file": r['file'], "line": r['line'], "new": r['new'], "checks": {}}
     for c in checks.split(','):
-        pr = subprocess.run(f"VERIF_REPO={d} VERIF_WORKERS={os.environ.get('VERIF_WORKERS','6')} ./check {c} quick", shell=True, cwd='/verif', env=env, capture_output=True, text=True)
+        pr = subprocess.run(f"VERIF_SCRATCH_TAG=rerun{os.getpid()} VERIF_REPO={d} VERIF_WORKERS={os.environ.get('VERIF_WORKERS','6')} ./check {c} quick", shell=True, cwd='/verif', env=env, capture_output=True, text=True)
         o = pr.stdout + pr.stderr
         m = re.search(r"^(violation|crash|hang|data races)[^\n]*", o, re.M)
         res["checks"][c] = [pr.returncode, (m.group(0)[:220] if m else "")]
@@ -36,3 +37,4 @@ for spec in sys.argv[2:]:
     print(res["status"], mid, r['file'], r['line'], r['new'][:70], res["checks"], flush=True)
     out.write(json.dumps(res) + "\n"); out.flush()
     shutil.rmtree(d, ignore_errors=True)
+    shutil.rmtree(f"/verif/.build/scratch-rerun{os.getpid()}", ignore_errors=True)
